@@ -23,45 +23,45 @@ TECH = "deterministic simulation with fault injection: real cutadapt.cli.main un
 CHECKS = {
     "C06": dict(
         level="exploration",
-        text="Seeded search over schedules: each generated case (records, layout, containers, command line) is executed by the real cutadapt.cli.main once with the serial runner and once with 2-5 simulated worker processes under a seeded scheduling policy, pipe capacity, feeder mode and buffer size; every output file (decompressed), stdout, the text report and the JSON report must be identical, and the run must neither deadlock nor leave children alive. Sampling, not enumeration: a clean batch is evidence, not proof.",
+        text="Seeded search over schedules: each generated case (records, layout, containers, command line) is executed by the real cutadapt.cli.main once with the serial runner and once with 2-5 simulated worker processes under a seeded scheduling policy, pipe capacity, feeder mode and buffer size; every output file (decompressed), stdout, the text report and the JSON report must be identical, and the run must neither deadlock nor leave children alive. The simulated machine varies per case: fork or spawn (per-process interpreter state and descriptors), input from files, standard input or /dev/fd pipes (also delivered in short pieces under the default buffer size with one worker descheduled for long), relative paths, pre-existing outputs, external compressor pipes, EMFILE, a terminal on stderr; inputs up to 104 000 reads, BAM, non-ASCII adapter names. 24 (quick) / 200 (thorough) cases are also run with the real program under fork, spawn and forkserver and compared with the simulation. Sampling, not enumeration: a clean batch is evidence, not proof.",
         design="5/C06",
         note="Trusted: the simulation kernel (threads parked at IPC operations, pickled process state, per-process images of cutadapt's module/class state under a per-case fork or spawn start method, message-granular pipes), the file seam below the real xopen with in-process codecs (external compressor processes modelled as pipes whose close waits for forked holders; one open() per case may fail with EMFILE; stderr is a terminal in 15 % of cases), the stdlib decompressors used by the oracle.",
     ),
     "C04": dict(
         level="exploration",
-        text="Exactly-once / conservation checked over the recorded history of each simulated run: seeded cases weighted towards filters, redirect files, discard options and demultiplexing are executed by the real cutadapt.cli.main with the serial runner and with 2-5 simulated workers under a seeded schedule; all closed output files are read back (independent strict parsers, stdlib codecs) and related to each other and to the JSON, text and minimal reports (ids unique across files, counts and base pairs equal file contents, input = output + reported categories, ids in no file = categories without redirect file; 30 % of the cases are judged from the printed report instead of --json); every 6th small case re-runs each record alone and compares the sums; quality-trimmed and poly-A-trimmed base counts are checked against the bases actually removed in isolated runs of that modifier. Sampling, not enumeration.",
+        text="Exactly-once / conservation checked over the recorded history of each simulated run: seeded cases weighted towards filters, redirect files, discard options and demultiplexing are executed by the real cutadapt.cli.main with the serial runner and with 2-5 simulated workers under a seeded schedule; all closed output files are read back (independent strict parsers, stdlib codecs) and related to each other and to the JSON, text and minimal reports (ids unique across files, counts and base pairs equal file contents, input = output + reported categories, ids in no file = categories without redirect file; 30 % of the cases are judged from the printed report instead of --json); every 6th small case re-runs each record alone and compares the sums; quality-trimmed and poly-A-trimmed base counts are checked against the bases actually removed in isolated runs of that modifier. Inputs include unaligned BAM, 70 000-104 000-read files, redirect files sent to /dev/null; faults: EMFILE on open (a run that gives up is a violation) and a full disk behind one output (ENOSPC at flush/close: a run that reports it is discarded, one that exits 0 is judged). Sampling, not enumeration.",
         design="5/C04",
-        note="Trusted: simulation kernel/SimFS as for C06; ids stay recoverable from the names written; report parsers in props/c04.py.",
+        note="Trusted: simulation kernel/file seam as for C06; ids stay recoverable from the names written; report parsers in props/c04.py.",
     ),
     "C05": dict(
         level="exploration",
-        text="Seeded paired-end cases (two files/interleaved, R1/R2 of very different lengths so chunk limits differ, one-sided adapters, every --pair-filter, LEN/LEN:LEN2/LEN:/:LEN2, redirect pairs, --pair-adapters, demultiplexing) run serially and with 2-5 simulated workers under a seeded schedule plus a filter-free shadow run; oracle over the files: R1/R2 in lock step with equal ids and in input order, each pair in exactly one destination, destination of every pair equal to a small reference model of the documented filter chain evaluated on the shadow records, --pair-adapters same-rank rule, and consistency of the match witness (a mate with a recorded match must differ from its input, one without must equal it).",
+        text="Seeded paired-end cases (two files/interleaved, R1/R2 of very different lengths so chunk limits differ, one-sided adapters, every --pair-filter, LEN/LEN:LEN2/LEN:/:LEN2, redirect pairs, --pair-adapters, demultiplexing) run serially and with 2-5 simulated workers under a seeded schedule plus a filter-free shadow run; oracle over the files: R1/R2 in lock step with equal ids and in input order, each pair in exactly one destination, destination of every pair equal to a small reference model of the documented filter chain evaluated on the shadow records, --pair-adapters same-rank rule (dual-index layouts, unmatched pairs byte-identical also with --action=lowercase), redirect files of which one or both are /dev/null, an empty adapter file on the adapter-less side, and consistency of the match witness (a mate with a recorded match must differ from its input, one without must equal it).",
         design="5/C05",
         note="Trusted: simulation kernel/SimFS as for C06; the reference model (props/model.py) transcribes the documented criteria; match status read from cutadapt's own --rename stamp; float criteria within 1e-4 of the threshold are not judged.",
     ),
     "C15": dict(
         level="exploration",
-        text="Seeded demultiplexing cases ({name} and {name1}/{name2}, plain and compressed templates, decoy adapters that never match, --discard-untrimmed/--untrimmed-output, --times 1-3, filters, empty inputs) run serially, with 2-5 simulated workers under a seeded schedule and once with a plain -o; oracle: created file set equals the documented set (empty files included, valid containers), every record lies in the file selected by its '-y dm={name}' stamp(s), multiset over all demultiplexed files equals the plain run, multi-core files equal single-core files.",
+        text="Seeded demultiplexing cases ({name} and {name1}/{name2}, plain and compressed templates, decoy adapters that never match, --discard-untrimmed/--untrimmed-output, --times 1-3, filters, empty inputs) run serially, with 2-5 simulated workers under a seeded schedule and once with a plain -o; oracle: created file set equals the documented set (empty files included, valid containers), every record lies in the file selected by its '-y dm={name}' stamp(s), multiset over all demultiplexed files equals the plain run, multi-core files equal single-core files. Adapter sets include same-named adapters (with large inputs), names differing only in case, an adapter named 'unknown', up to 330 barcodes; templates with the placeholder first (relative paths), twice, or next to literal braces; the descriptor limit is reached once or twice while the files are opened (EMFILE).",
         design="5/C15",
         note="Trusted: simulation kernel/SimFS as for C06; the stamp written by cutadapt's PrefixSuffixAdder as witness of the last match.",
     ),
     "C19": dict(
         level="exploration",
-        text="Each seeded case is executed as a reference variant (plain, two files, one core) and 4-7 variants differing only in input container (gz, multi-member gz, bz2, xz, zst), input layout, FASTA vs FASTQ input, output containers/extensions/layout, stdout with/without --fasta and 1 vs 2-5 simulated workers (seeded schedule, buffer size); oracle: same records in every destination (names+sequences when a FASTA side is involved, else also qualities) and the written format equals a transcription of the documented name rule.",
+        text="Each seeded case is executed as a reference variant (plain, two files, one core) and 4-7 variants differing only in input container (gz, multi-member gz, bz2, xz, zst), input layout, FASTA vs FASTQ input, output containers/extensions/layout, stdout with/without --fasta and 1 vs 2-5 simulated workers (seeded schedule, buffer size); oracle: same records in every destination (names+sequences when a FASTA side is involved, else also qualities) and the written format equals a transcription of the documented name rule (recognised, unrecognised, near-miss and extension-only names); outputs may exist already (re-run), stderr may be a terminal, a worker may get a > 256 KiB chunk and then another.",
         design="5/C19",
-        note="Trusted: simulation kernel/SimFS as for C06 (real xopen detection and in-process codecs run; external compressor programs/threads do not); stdlib codecs + backports.zstd for reading outputs.",
+        note="Trusted: simulation kernel/file seam as for C06 (real xopen detection and in-process codecs run; external compressor programs are modelled as pipes, their codecs are the in-process ones); stdlib codecs + backports.zstd for reading outputs.",
     ),
     "C20": dict(
         level="exploration",
-        text="Seeded cases with all adapter types (incl. anywhere, linked), --times 1-3, all actions, --revcomp (single-end), --pair-adapters, always --info-file and --json, run serially and with 2-5 simulated workers (each worker tallies its chunks, main merges) under a seeded schedule; the info-file rows of the same run are tallied per adapter/end (matches, removed length x errors, adjacent bases, 5'/3' split, reverse-complement matches) and must equal the JSON report (adapters_read2 via a mirrored run), and so must the per-adapter sections of the text report (trimmed counts, histograms, max.err, bases preceding, allowed errors); error_lengths must equal int(L*rate) for every L.",
+        text="Seeded cases with all adapter types (incl. anywhere, linked), --times 1-3, all actions, --revcomp (single-end), --pair-adapters, always --info-file and --json, run serially and with 2-5 simulated workers (each worker tallies its chunks, main merges) under a seeded schedule; the info-file rows of the same run are tallied per adapter/end (matches, removed length x errors, adjacent bases, 5'/3' split, reverse-complement matches) and must equal the JSON report (adapters_read2 via a mirrored run), and so must the per-adapter sections of the text report (trimmed counts, histograms, max.err, bases preceding, allowed errors); error_lengths must equal int(L*rate) for every L (adapters up to 110 nt with rates on floating-point edges; spellings with I, U, lower case). Same-named adapters are told apart by attributing each info-file row to the adapter that can have produced it; R1 and R2 may get identical adapter lists; 7 % of the cases are paired-end --revcomp runs judged from the read names (' rc' marker and a '-y a={name}' stamp) instead of the info file.",
         design="5/C20",
-        note="Trusted: simulation kernel/SimFS as for C06; the info file as independent record of the applied matches (not usable with paired --revcomp, which is therefore not generated).",
+        note="Trusted: simulation kernel/SimFS as for C06; the info file as independent record of the applied matches (it describes one read only with paired --revcomp, where the read names are used instead).",
     ),
     "C12": dict(
         level="fault_enumeration",
-        text="Storage faults are enumerated, schedules sampled: for seeded base inputs (FASTQ single / two-file / interleaved, plain, gzip, multi-member gzip; sampled part also bzip2/xz) EVERY truncation offset of every input file and every single-record corruption kind at EVERY record index is applied to the SimFS bytes, and each faulted input is run with the serial runner and with 2-4 simulated workers under a seeded schedule; plus sampled two-fault sequences, gzip bit flips and chunk-boundary-biased buffer sizes. A hang is decided exactly (main unfinished and no task enabled = DEADLOCK). Oracle: malformed (by an independent strict reader / zlib) => non-zero exit and an error message; exit 0 => input well-formed and every record accounted for; outputs after an error hold only complete records, in input order, that are a prefix of the fault-free run.",
+        text="Storage faults are enumerated, schedules sampled: for seeded base inputs (FASTQ single / two-file / interleaved, plain, gzip, multi-member gzip; sampled part also bzip2/xz) EVERY truncation offset of every input file and every single-record corruption kind at EVERY record index is applied to the stored bytes, and each faulted input is run with the serial runner and with 2-4 simulated workers under a seeded schedule; plus sampled two-fault sequences, gzip bit flips, truncation of the data before compression (intact container), unaligned BAM input (thorough: every offset of the BAM stream of a base), input through standard input or /dev/fd pipes, and chunk-boundary-biased buffer sizes. The program is entered through main_cli, so the exit status is the process's. A hang is decided exactly (main unfinished and no task enabled = DEADLOCK). Oracle: malformed (by an independent strict reader / zlib) => non-zero exit and an error message; exit 0 => input well-formed and every record accounted for; outputs after an error hold only complete records, in input order, that are a prefix of the fault-free run.",
         design="5/C12",
-        note="Trusted: simulation kernel and SimFS as for C06; the strict FASTQ reader and stdlib zlib as independent judges of well-formedness; inputs classified 'unspecified' (FASTA bodies, files turned into FASTA by the corruption) are checked for hangs only. No EIO/ENOSPC/signal/worker-kill faults: the property does not speak about them.",
+        note="Trusted: simulation kernel and SimFS as for C06; the strict FASTQ reader and stdlib zlib as independent judges of well-formedness; inputs classified 'unspecified' (FASTA bodies, files turned into FASTA by the corruption) are checked for hangs only. Mate names are compared by dnaio's rule (a final 1/2/3 is ignored). No EIO/signal/worker-kill faults: the property does not speak about them.",
     ),
 }
 
